@@ -731,8 +731,11 @@ pub fn build_error(
     };
     // RFC 4884 §5: without a length attribute a quotation longer than 128 octets cannot
     // be told apart from a legacy 128-octet quotation followed by an extension.
+    // ... and a label stack object whose length is not a whole number of entries is malformed:
+    // what a parser makes of it is not prescribed (it must stop, and must not crash)
     let ambiguous_ext = matches!(layout, ErrorLayout::Plain) && quote_len > 128
-        || matches!(layout, ErrorLayout::Legacy128(_)) && quote_len > 128;
+        || matches!(layout, ErrorLayout::Legacy128(_)) && quote_len > 128
+        || exts.as_ref().is_some_and(|o| o.iter().any(|x| x.class == 1 && x.payload.len() % 4 != 0));
     let (icmp_type, rfc_len_off) = match (v6, kind) {
         (false, RespKind::TimeExceeded) => (11u8, 5usize),
         (false, _) => (3, 5),
